@@ -28,7 +28,7 @@ def describe(o):
     return (tuple(sorted(names)), fin, tuple(data), logged)
 
 
-def build(tree, layers_spec, limits=None, logx=False, logy=False, loglog=False, resolution=16):
+def build(tree, layers_spec, limits=None, logx=False, logy=False, loglog=False, resolution=16, operation="sum", reuse=None):
     hooks = core_hooks()
     rec = Rec()
     hooks["ext"].update(np_hooks({
@@ -64,9 +64,12 @@ def build(tree, layers_spec, limits=None, logx=False, logy=False, loglog=False, 
     layers = []
     for tag, op in layers_spec:
         layers.append(ev0.instantiate(ci, [ArrTok(tag, "g", (5,), tag.lower())], {"operation": op} if op else {}, None))
+    if reuse is not None:
+        layers = reuse
+    rec.layers = layers
     x = ArrTok("X", "m", (5,), "x")
     y = ArrTok("Y", "s", (5,), "y")
-    kwargs = dict(plot=False, logx=logx, logy=logy, loglog=loglog, resolution=resolution, operation="sum")
+    kwargs = dict(plot=False, logx=logx, logy=logy, loglog=loglog, resolution=resolution, operation=operation)
     kwargs.update(limits or {})
     fi = tree.func(H2D)
     ev = ModelEval(tree, fi, {}, hooks)
@@ -192,3 +195,28 @@ def check_hist2d(run, tree, aspects=("limits", "layers")):
                    "computed from x")
         except ERR as e:
             run.unresolved(construct, fi.where(), "cannot fold: %s" % e)
+
+
+def check_hist2d_history(run, tree):
+    """the same Layer object (without an operation of its own) handed to two calls with different call-level operations: each call uses its own"""
+    fi = tree.func(H2D)
+    construct = H2D + "::layers[one Layer object, two calls]"
+    try:
+        try:
+            rec1, out1 = build(tree, [("RHO", None)], operation="mean")
+            rec2, out2 = build(tree, [], operation="sum", reuse=rec1.layers)
+        except (Raised, ProgramRaised) as e:
+            run.violated(construct, fi.where(), "raises %s" % e, "two histograms of one Layer")
+            return
+        d1 = origin_of(out1._attrs["layers"][0].get("data"))
+        d2 = origin_of(out2._attrs["layers"][0].get("data"))
+        w1 = ("masked", ("==", ("counts",), 0), ("/", ("binned", 0), ("counts",)))
+        w2 = ("masked", ("==", ("counts",), 0), ("binned", 0))
+        lay = rec1.layers[0]
+        untouched = lay._attrs.get("operation") is None and lay._attrs.get("kwargs") == {}
+        run.ob(construct, d1 == w1 and d2 == w2 and untouched, fi.where(),
+               "first call (operation='mean') -> %s; second call (operation='sum') -> %s; the caller's Layer afterwards: operation=%r, options=%r" % (
+                   "mean" if d1 == w1 else d1, "sum" if d2 == w2 else d2, lay._attrs.get("operation"), lay._attrs.get("kwargs")),
+               "options of an earlier call stick to the caller's Layer: a 'mean' histogram followed by a 'sum' histogram of the same Layer returns means")
+    except ERR as e:
+        run.unresolved(construct, fi.where(), "cannot fold: %s" % e)
